@@ -1,1 +1,585 @@
-//! cqlref::binder - independent reference (see DESIGN.md 1.3). Owned by the builder of the property that needs it.
+//! cqlref::binder - reference binder for derived structs (C16).
+//!
+//! Written from the attribute DOCUMENTATION of the four derive macros (scylla-macros/src/lib.rs doc
+//! comments and docs/source/data-types/udt.md), not from the generated code. It answers, for a struct
+//! model (flavor + attributes + leaf fields) and a database-side field/column list:
+//!   * is the combination accepted, rejected, or left open by the documentation;
+//!   * which struct leaf is bound to which database position;
+//!   * serialization: which bytes belong at each database position;
+//!   * deserialization: which value each leaf receives.
+//!
+//! Documented rules used (quotes abridged):
+//!   match_by_name     "does not require the fields ... to be in the same order"; serialization "in the order which
+//!                     the database expects"
+//!   enforce_order     "requires the fields in the Rust struct to be in the same order ... If the order is incorrect,
+//!                     type checking/serialization will fail"; names "will still be checked"
+//!   skip_name_checks  (ordered only) "it's OK if i-th field has a different name ... Fields are still being type-checked"
+//!   SerializeValue    "Serialization will fail if there are some fields in the Rust struct that don't match to any of
+//!                     the UDT fields." UDT fields absent from the struct: by-name "Missing fields in the middle of UDT
+//!                     will be sent as NULLs, missing fields at the end will not be sent at all"; ordered "will succeed
+//!                     if suffix of UDT fields is missing. If there are missing fields in the middle it will fail."
+//!   forbid_excess_udt_fields  "Forces Rust struct to have all the fields present in UDT, otherwise serialization
+//!                     fails." / deserialization: "makes sure that no excess fields are present"
+//!   DeserializeValue  "enforce_order flavour ignores excess UDT fields in the suffix of the UDT definition, and the
+//!                     default unordered flavour ignores excess UDT fields anywhere."
+//!   allow_missing     (DeserializeValue) "If the UDT definition does not contain this field, it will be initialized
+//!                     with Default::default()."
+//!   default_when_null "If the value of the field received from DB is null, the field will be initialized with
+//!                     Default::default()."
+//!   skip              ser: "Don't use the field during serialization." de: "completely ignored ... Default::default()"
+//!   rename            bind to the given database name instead of the Rust name
+//!   flatten           (SerializeRow) "Inline fields from a field into the parent struct."  -> modelled as leaves.
+//!   SerializeRow      "Serialization will fail if there are some bind markers/columns in the statement that don't match
+//!                     to any of the Rust struct fields, or vice versa."
+//!   DeserializeRow    "the struct must match the queried names and types"
+//!   Option            udt.md: "Wrapping a field in Option will gracefully handle null field values."
+//!
+//! Where the documentation says nothing the verdict is `Either` (if the driver accepts, the binding below
+//! must be what it did) or `Unspecified` (only "Ok or Err, no panic" may be asserted):
+//!   * `allow_missing` on the *serialization* side (not listed for SerializeValue);
+//!   * excess columns for DeserializeRow;
+//!   * ordered UDT whose ignored suffix contains the name of a declared (allow_missing) field;
+//!   * null delivered to a non-Option list field (the driver reads null collections as empty).
+//!
+//! Cell encoding (CQL v4 spec section 6): int/bigint big-endian two's complement, text UTF-8, boolean one byte,
+//! double IEEE-754 big-endian, list<int> = [i32 n] then n x [i32 len][bytes]. A UDT value / a row is a sequence
+//! of [i32 len][bytes] cells, len -1 = null; a UDT value may stop early (remaining fields are null).
+
+#[derive(Clone, Copy, PartialEq, Eq, Debug, Hash, PartialOrd, Ord)]
+pub enum Kind {
+    Int,
+    Text,
+    Boolean,
+    BigInt,
+    Double,
+    ListInt,
+}
+
+impl Kind {
+    pub const ALL: [Kind; 6] = [Kind::Int, Kind::Text, Kind::Boolean, Kind::BigInt, Kind::Double, Kind::ListInt];
+    pub fn name(self) -> &'static str {
+        match self {
+            Kind::Int => "int",
+            Kind::Text => "text",
+            Kind::Boolean => "boolean",
+            Kind::BigInt => "bigint",
+            Kind::Double => "double",
+            Kind::ListInt => "list<int>",
+        }
+    }
+    pub fn from_name(s: &str) -> Option<Kind> {
+        Kind::ALL.into_iter().find(|k| k.name() == s)
+    }
+}
+
+/// A field value. `Double` holds the bit pattern so equality is bitwise.
+#[derive(Clone, PartialEq, Eq, Debug, Hash)]
+pub enum Val {
+    Null,
+    Int(i32),
+    Text(String),
+    Boolean(bool),
+    BigInt(i64),
+    Double(u64),
+    ListInt(Vec<i32>),
+}
+
+impl Val {
+    pub fn kind(&self) -> Option<Kind> {
+        Some(match self {
+            Val::Null => return None,
+            Val::Int(_) => Kind::Int,
+            Val::Text(_) => Kind::Text,
+            Val::Boolean(_) => Kind::Boolean,
+            Val::BigInt(_) => Kind::BigInt,
+            Val::Double(_) => Kind::Double,
+            Val::ListInt(_) => Kind::ListInt,
+        })
+    }
+
+    /// Bytes of the cell body; `None` for null.
+    pub fn encode(&self) -> Option<Vec<u8>> {
+        Some(match self {
+            Val::Null => return None,
+            Val::Int(v) => v.to_be_bytes().to_vec(),
+            Val::Text(s) => s.as_bytes().to_vec(),
+            Val::Boolean(b) => vec![*b as u8],
+            Val::BigInt(v) => v.to_be_bytes().to_vec(),
+            Val::Double(bits) => bits.to_be_bytes().to_vec(),
+            Val::ListInt(xs) => {
+                let mut out = (xs.len() as i32).to_be_bytes().to_vec();
+                for x in xs {
+                    out.extend_from_slice(&4i32.to_be_bytes());
+                    out.extend_from_slice(&x.to_be_bytes());
+                }
+                out
+            }
+        })
+    }
+
+    pub fn decode(kind: Kind, cell: Option<&[u8]>) -> Result<Val, String> {
+        let Some(b) = cell else { return Ok(Val::Null) };
+        let fixed = |n: usize| if b.len() == n { Ok(()) } else { Err(format!("{} cell of {} bytes", kind.name(), b.len())) };
+        Ok(match kind {
+            Kind::Int => {
+                fixed(4)?;
+                Val::Int(i32::from_be_bytes(b.try_into().unwrap()))
+            }
+            Kind::BigInt => {
+                fixed(8)?;
+                Val::BigInt(i64::from_be_bytes(b.try_into().unwrap()))
+            }
+            Kind::Double => {
+                fixed(8)?;
+                Val::Double(u64::from_be_bytes(b.try_into().unwrap()))
+            }
+            Kind::Boolean => {
+                fixed(1)?;
+                Val::Boolean(b[0] != 0)
+            }
+            Kind::Text => Val::Text(String::from_utf8(b.to_vec()).map_err(|e| e.to_string())?),
+            Kind::ListInt => {
+                if b.len() < 4 {
+                    return Err("list cell shorter than its count".into());
+                }
+                let n = i32::from_be_bytes(b[0..4].try_into().unwrap());
+                let mut xs = Vec::new();
+                let mut p = 4usize;
+                for _ in 0..n {
+                    if b.len() < p + 8 || b[p..p + 4] != 4i32.to_be_bytes() {
+                        return Err("malformed list<int> element".into());
+                    }
+                    xs.push(i32::from_be_bytes(b[p + 4..p + 8].try_into().unwrap()));
+                    p += 8;
+                }
+                if p != b.len() {
+                    return Err("trailing bytes after list<int>".into());
+                }
+                Val::ListInt(xs)
+            }
+        })
+    }
+
+    /// `Default::default()` of the Rust carrier of this kind (`Option<_>` -> None).
+    pub fn default_for(kind: Kind, optional: bool) -> Val {
+        if optional {
+            return Val::Null;
+        }
+        match kind {
+            Kind::Int => Val::Int(0),
+            Kind::Text => Val::Text(String::new()),
+            Kind::Boolean => Val::Boolean(false),
+            Kind::BigInt => Val::BigInt(0),
+            Kind::Double => Val::Double(0f64.to_bits()),
+            Kind::ListInt => Val::ListInt(Vec::new()),
+        }
+    }
+}
+
+/// Append one `[i32 len][bytes]` cell (len -1 for null).
+pub fn write_cell(out: &mut Vec<u8>, cell: Option<&[u8]>) {
+    match cell {
+        None => out.extend_from_slice(&(-1i32).to_be_bytes()),
+        Some(b) => {
+            out.extend_from_slice(&(b.len() as i32).to_be_bytes());
+            out.extend_from_slice(b);
+        }
+    }
+}
+
+/// Split a UDT body / serialized row into its cells.
+pub fn split_cells(mut body: &[u8]) -> Result<Vec<Option<Vec<u8>>>, String> {
+    let mut cells = Vec::new();
+    while !body.is_empty() {
+        if body.len() < 4 {
+            return Err("truncated cell length".into());
+        }
+        let len = i32::from_be_bytes(body[0..4].try_into().unwrap());
+        body = &body[4..];
+        if len < 0 {
+            // -1 null. (-2 "unset" is never legal inside a UDT; in a row it would be a bound-value marker,
+            // which derived structs of plain carriers never produce.)
+            if len != -1 {
+                return Err(format!("cell length {len}"));
+            }
+            cells.push(None);
+        } else {
+            let len = len as usize;
+            if body.len() < len {
+                return Err("cell longer than the buffer".into());
+            }
+            cells.push(Some(body[..len].to_vec()));
+            body = &body[len..];
+        }
+    }
+    Ok(cells)
+}
+
+#[derive(Clone, Copy, PartialEq, Eq, Debug)]
+pub enum Flavor {
+    ByName,
+    Ordered,
+}
+
+#[derive(Clone, Copy, PartialEq, Eq, Debug)]
+pub enum Target {
+    /// UDT: SerializeValue / DeserializeValue
+    Udt,
+    /// bind markers / result columns: SerializeRow / DeserializeRow
+    Row,
+}
+
+#[derive(Clone, Copy, PartialEq, Eq, Debug)]
+pub enum Dir {
+    Ser,
+    De,
+}
+
+/// One leaf field of the struct after `flatten` has been inlined, in declaration order.
+#[derive(Clone, Debug)]
+pub struct Leaf {
+    pub rust_name: String,
+    /// `rename` value or the Rust name
+    pub db_name: String,
+    pub kind: Kind,
+    /// the Rust type is `Option<_>`
+    pub optional: bool,
+    pub skip: bool,
+    pub allow_missing: bool,
+    pub default_when_null: bool,
+}
+
+#[derive(Clone, Debug)]
+pub struct Model {
+    pub flavor: Flavor,
+    pub skip_name_checks: bool,
+    pub forbid_excess_udt_fields: bool,
+    pub leaves: Vec<Leaf>,
+}
+
+#[derive(Clone, Debug, PartialEq, Eq, Hash)]
+pub struct DbField {
+    pub name: String,
+    pub kind: Kind,
+}
+
+#[derive(Clone, Copy, PartialEq, Eq, Debug)]
+pub enum Verdict {
+    /// the documentation promises success
+    MustAccept,
+    /// the documentation promises an error (type check or (de)serialization error)
+    MustReject,
+    /// not documented either way; if accepted, the binding/values computed here must be what happened
+    Either,
+    /// not documented and no sensible binding to demand: only "Ok or Err, never a panic"
+    Unspecified,
+}
+
+#[derive(Clone, Debug)]
+pub struct Binding {
+    pub verdict: Verdict,
+    /// short stable reason (for counters and messages)
+    pub reason: &'static str,
+    /// per leaf: database position it is bound to
+    pub leaf_to_db: Vec<Option<usize>>,
+    /// leaves bound to a database field of a different type
+    pub mismatched: Vec<usize>,
+}
+
+fn worst(cur: &mut (Verdict, &'static str), v: Verdict, why: &'static str) {
+    // MustReject > Unspecified > Either > MustAccept; first reason of the winning rank is kept
+    let rank = |v: Verdict| match v {
+        Verdict::MustAccept => 0,
+        Verdict::Either => 1,
+        Verdict::Unspecified => 2,
+        Verdict::MustReject => 3,
+    };
+    if rank(v) > rank(cur.0) {
+        *cur = (v, why);
+    }
+}
+
+/// Bind the struct's leaves to the database field list by names / order / count only.
+pub fn bind_names(m: &Model, db: &[DbField], target: Target, dir: Dir) -> Binding {
+    let mut res = (Verdict::MustAccept, "ok");
+    let mut leaf_to_db: Vec<Option<usize>> = vec![None; m.leaves.len()];
+    let active: Vec<usize> = (0..m.leaves.len()).filter(|i| !m.leaves[*i].skip).collect();
+    let mut db_used = vec![false; db.len()];
+    // what an unbound leaf means
+    let unbound = |leaf: &Leaf, res: &mut (Verdict, &'static str)| match (target, dir) {
+        (Target::Udt, Dir::De) if leaf.allow_missing => {}
+        (Target::Udt, Dir::Ser) if leaf.allow_missing => worst(res, Verdict::Either, "ser-allow-missing-undocumented"),
+        _ => worst(res, Verdict::MustReject, "struct-field-without-db-field"),
+    };
+    match (m.flavor, m.skip_name_checks) {
+        (Flavor::ByName, _) => {
+            for &i in &active {
+                let leaf = &m.leaves[i];
+                // database names are unique; linear scan
+                match db.iter().position(|f| f.name == leaf.db_name) {
+                    Some(j) => {
+                        leaf_to_db[i] = Some(j);
+                        db_used[j] = true;
+                    }
+                    None => unbound(leaf, &mut res),
+                }
+            }
+            let excess = db_used.iter().filter(|u| !**u).count();
+            if excess > 0 {
+                match (target, dir) {
+                    (Target::Udt, _) => {
+                        if m.forbid_excess_udt_fields {
+                            worst(&mut res, Verdict::MustReject, "excess-udt-field-forbidden");
+                        }
+                    }
+                    (Target::Row, Dir::Ser) => worst(&mut res, Verdict::MustReject, "bind-marker-without-struct-field"),
+                    (Target::Row, Dir::De) => worst(&mut res, Verdict::Either, "de-row-excess-column-undocumented"),
+                }
+            }
+        }
+        (Flavor::Ordered, false) => {
+            // names are checked: walk both lists; a leaf whose name is not next may only be stepped over
+            // when it is allow_missing (UDT); everything after the last leaf is the excess suffix.
+            let mut j = 0usize;
+            let mut failed = false;
+            for &i in &active {
+                let leaf = &m.leaves[i];
+                if j < db.len() && db[j].name == leaf.db_name {
+                    leaf_to_db[i] = Some(j);
+                    db_used[j] = true;
+                    j += 1;
+                } else if target == Target::Udt && leaf.allow_missing {
+                    unbound(leaf, &mut res);
+                } else {
+                    failed = true;
+                    break;
+                }
+            }
+            if failed {
+                worst(&mut res, Verdict::MustReject, "order-or-name-mismatch");
+            } else if j < db.len() {
+                let suffix = &db[j..];
+                match (target, dir) {
+                    (Target::Udt, _) => {
+                        if m.forbid_excess_udt_fields {
+                            worst(&mut res, Verdict::MustReject, "excess-udt-field-forbidden");
+                        } else if suffix.iter().any(|f| active.iter().any(|&i| m.leaves[i].db_name == f.name)) {
+                            worst(&mut res, Verdict::Unspecified, "declared-name-in-ignored-suffix");
+                        }
+                    }
+                    (Target::Row, Dir::Ser) => worst(&mut res, Verdict::MustReject, "bind-marker-without-struct-field"),
+                    (Target::Row, Dir::De) => worst(&mut res, Verdict::Either, "de-row-excess-column-undocumented"),
+                }
+            }
+        }
+        (Flavor::Ordered, true) => {
+            // position only
+            for (pos, &i) in active.iter().enumerate() {
+                let leaf = &m.leaves[i];
+                if pos < db.len() {
+                    leaf_to_db[i] = Some(pos);
+                    db_used[pos] = true;
+                } else {
+                    unbound(leaf, &mut res);
+                }
+            }
+            if db.len() > active.len() {
+                match (target, dir) {
+                    (Target::Udt, _) => {
+                        if m.forbid_excess_udt_fields {
+                            worst(&mut res, Verdict::MustReject, "excess-udt-field-forbidden");
+                        }
+                    }
+                    (Target::Row, Dir::Ser) => worst(&mut res, Verdict::MustReject, "bind-marker-without-struct-field"),
+                    (Target::Row, Dir::De) => worst(&mut res, Verdict::Either, "de-row-excess-column-undocumented"),
+                }
+            }
+        }
+    }
+    let mismatched: Vec<usize> = leaf_to_db
+        .iter()
+        .enumerate()
+        .filter_map(|(i, j)| j.filter(|j| db[*j].kind != m.leaves[i].kind).map(|_| i))
+        .collect();
+    Binding { verdict: res.0, reason: res.1, leaf_to_db, mismatched }
+}
+
+/// Names/order/count verdict combined with the static type check of every bound pair
+/// ("Fields are still being type-checked"). This is the verdict of a `type_check` (deserialization) and
+/// of a serialization in which every mismatched field carries a non-null value.
+pub fn bind(m: &Model, db: &[DbField], target: Target, dir: Dir) -> Binding {
+    let mut b = bind_names(m, db, target, dir);
+    if !b.mismatched.is_empty() {
+        let mut res = (b.verdict, b.reason);
+        worst(&mut res, Verdict::MustReject, "type-mismatch");
+        b.verdict = res.0;
+        b.reason = res.1;
+    }
+    b
+}
+
+/// Expected serialization.
+#[derive(Clone, Debug)]
+pub struct SerExpect {
+    pub verdict: Verdict,
+    pub reason: &'static str,
+    /// per database position: the cell body (None = null / not supplied by the struct)
+    pub cells: Vec<Option<Vec<u8>>>,
+    /// number of leading cells that must be present in the output. UDT: cells after the last bound
+    /// position may be written as null or not at all; rows: every cell must be present.
+    pub min_cells: usize,
+}
+
+/// `vals` has one entry per leaf (also for skipped leaves; `Val::Null` only for optional leaves).
+pub fn expect_ser(m: &Model, vals: &[Val], db: &[DbField], target: Target) -> SerExpect {
+    assert_eq!(vals.len(), m.leaves.len());
+    let mut b = bind_names(m, db, target, Dir::Ser);
+    {
+        // A mismatched field with a value must be refused. A mismatched `None` writes a null whatever the
+        // column type is; nothing documents whether that is checked.
+        let mut res = (b.verdict, b.reason);
+        for &i in &b.mismatched {
+            if vals[i] == Val::Null {
+                worst(&mut res, Verdict::Either, "null-into-mismatched-type-undocumented");
+            } else {
+                worst(&mut res, Verdict::MustReject, "type-mismatch");
+            }
+        }
+        b.verdict = res.0;
+        b.reason = res.1;
+    }
+    let mut cells: Vec<Option<Vec<u8>>> = vec![None; db.len()];
+    let mut min_cells = 0usize;
+    for (i, j) in b.leaf_to_db.iter().enumerate() {
+        if let Some(j) = *j {
+            cells[j] = vals[i].encode();
+            min_cells = min_cells.max(j + 1);
+        }
+    }
+    if target == Target::Row {
+        min_cells = db.len();
+    }
+    SerExpect { verdict: b.verdict, reason: b.reason, cells, min_cells }
+}
+
+/// Compare the cells the driver produced with the expectation. `Err` describes the first difference.
+pub fn compare_ser_cells(exp: &SerExpect, got: &[Option<Vec<u8>>]) -> Result<(), String> {
+    if got.len() < exp.min_cells || got.len() > exp.cells.len() {
+        return Err(format!("{} cells written, expected between {} and {}", got.len(), exp.min_cells, exp.cells.len()));
+    }
+    for (pos, g) in got.iter().enumerate() {
+        if *g != exp.cells[pos] {
+            return Err(format!("database position {pos}: wrote {:?}, expected {:?}", g, exp.cells[pos]));
+        }
+    }
+    Ok(())
+}
+
+/// What the database delivered at one position.
+#[derive(Clone, Debug, PartialEq, Eq)]
+pub enum Cell {
+    /// UDT value ended before this field (protocol: same as null)
+    Absent,
+    Null,
+    Value(Val),
+}
+
+#[derive(Clone, Debug)]
+pub struct DeExpect {
+    pub verdict: Verdict,
+    pub reason: &'static str,
+    /// per leaf: value the struct must hold when deserialization succeeds
+    pub vals: Vec<Val>,
+}
+
+pub fn expect_de(m: &Model, db: &[DbField], cells: &[Cell], target: Target) -> DeExpect {
+    assert_eq!(db.len(), cells.len());
+    let b = bind(m, db, target, Dir::De);
+    let mut res = (b.verdict, b.reason);
+    let mut vals = Vec::with_capacity(m.leaves.len());
+    for (i, leaf) in m.leaves.iter().enumerate() {
+        let dflt = Val::default_for(leaf.kind, leaf.optional);
+        let v = match b.leaf_to_db[i] {
+            // skipped, or allow_missing and not in the database
+            None => dflt,
+            Some(j) => match &cells[j] {
+                Cell::Value(v) => v.clone(),
+                Cell::Absent | Cell::Null => {
+                    if leaf.optional {
+                        Val::Null
+                    } else if leaf.default_when_null {
+                        dflt
+                    } else if leaf.kind == Kind::ListInt {
+                        // undocumented: the driver reads a null collection as an empty one
+                        worst(&mut res, Verdict::Either, "null-into-non-option-list-undocumented");
+                        Val::ListInt(Vec::new())
+                    } else {
+                        worst(&mut res, Verdict::MustReject, "null-into-non-option-field");
+                        dflt
+                    }
+                }
+            },
+        };
+        vals.push(v);
+    }
+    DeExpect { verdict: res.0, reason: res.1, vals }
+}
+
+/// Encode what the database delivers (reference encoder; independent of the driver's serializer).
+pub fn encode_cells(cells: &[Cell]) -> Vec<u8> {
+    let mut out = Vec::new();
+    let mut ended = false;
+    for c in cells {
+        match c {
+            Cell::Absent => ended = true,
+            Cell::Null => {
+                assert!(!ended, "Absent cells must form a suffix");
+                write_cell(&mut out, None)
+            }
+            Cell::Value(v) => {
+                assert!(!ended, "Absent cells must form a suffix");
+                write_cell(&mut out, v.encode().as_deref())
+            }
+        }
+    }
+    out
+}
+
+#[cfg(test)]
+mod tests {
+    use super::*;
+
+    fn leaf(n: &str, k: Kind) -> Leaf {
+        Leaf { rust_name: n.into(), db_name: n.into(), kind: k, optional: false, skip: false, allow_missing: false, default_when_null: false }
+    }
+    fn f(n: &str, k: Kind) -> DbField {
+        DbField { name: n.into(), kind: k }
+    }
+
+    // pinned from the repo's macros_tests.rs expectations (loose ordering UDT test)
+    #[test]
+    fn by_name_permuted() {
+        let m = Model { flavor: Flavor::ByName, skip_name_checks: false, forbid_excess_udt_fields: false, leaves: vec![leaf("a", Kind::Text), leaf("b", Kind::Int), leaf("c", Kind::BigInt)] };
+        let db = [f("b", Kind::Int), f("a", Kind::Text), f("c", Kind::BigInt)];
+        let e = expect_ser(&m, &[Val::Text("x".into()), Val::Int(42), Val::BigInt(2137)], &db, Target::Udt);
+        assert_eq!(e.verdict, Verdict::MustAccept);
+        assert_eq!(e.cells[0], Some(vec![0, 0, 0, 42]));
+        assert_eq!(e.cells[1], Some(b"x".to_vec()));
+    }
+
+    #[test]
+    fn ordered_rejects_permutation() {
+        let m = Model { flavor: Flavor::Ordered, skip_name_checks: false, forbid_excess_udt_fields: false, leaves: vec![leaf("a", Kind::Text), leaf("b", Kind::Int)] };
+        let db = [f("b", Kind::Int), f("a", Kind::Text)];
+        assert_eq!(bind(&m, &db, Target::Udt, Dir::De).verdict, Verdict::MustReject);
+        let db = [f("a", Kind::Text), f("b", Kind::Int), f("d", Kind::Boolean)];
+        assert_eq!(bind(&m, &db, Target::Udt, Dir::De).verdict, Verdict::MustAccept);
+        assert_eq!(bind(&m, &db, Target::Row, Dir::Ser).verdict, Verdict::MustReject);
+    }
+
+    #[test]
+    fn list_roundtrip() {
+        let v = Val::ListInt(vec![1, -1]);
+        assert_eq!(Val::decode(Kind::ListInt, v.encode().as_deref()).unwrap(), v);
+    }
+}
